@@ -148,9 +148,9 @@ ZOO = {
     "EMVR": Z("reg", lambda s, ml: ExpectedModelVarianceReduction(random_state=s), lambda ml, cl, s: dict(reg=nic()), samplewise=(True, True)),
     "KLDivergenceMaximization": Z("reg", lambda s, ml: KLDivergenceMaximization(random_state=s), lambda ml, cl, s: dict(reg=nic()),
                                   samplewise=(True, True), slow=True),
-    "GreedySamplingX": Z("reg", lambda s, ml: GreedySamplingX(random_state=s), none_kw),
-    "GreedySamplingTarget": Z("reg", lambda s, ml: GreedySamplingTarget(random_state=s), lambda ml, cl, s: dict(reg=nic())),
-    "GreedySamplingTarget-GSy": Z("reg", lambda s, ml: GreedySamplingTarget(method="GSy", random_state=s), lambda ml, cl, s: dict(reg=nic())),
+    "GreedySamplingX": Z("reg", lambda s, ml: GreedySamplingX(random_state=s), none_kw, samplewise=(True, True)),
+    "GreedySamplingTarget": Z("reg", lambda s, ml: GreedySamplingTarget(random_state=s), lambda ml, cl, s: dict(reg=nic()), samplewise=(True, True)),
+    "GreedySamplingTarget-GSy": Z("reg", lambda s, ml: GreedySamplingTarget(method="GSy", random_state=s), lambda ml, cl, s: dict(reg=nic()), samplewise=(True, True)),
     "RegressionTree-random": Z("reg", lambda s, ml: RegressionTreeBasedAL(method="random", random_state=s),
                                lambda ml, cl, s: dict(reg=tree_reg()), sel="sampling"),
     "RegressionTree-diversity": Z("reg", lambda s, ml: RegressionTreeBasedAL(method="diversity", random_state=s),
